@@ -1,5 +1,5 @@
 (* C19 - the statements exported to Props/C19.v *)
-From DV Require Import Base.Prelude Model.BTreeM Proofs.BTreeBase Proofs.BTreeWf Proofs.BTreeInsert Proofs.BTreeLookup.
+From DV Require Import Base.Prelude Model.BTreeM Proofs.BTreeBase Proofs.BTreeWf Proofs.BTreeInsert Proofs.BTreeLookup Proofs.BTreeDelete.
 
 (* insertion (BTree.insert_element at tree level: root growth + insert_nonfull, in_order on or
    off) never fails on a well-formed tree and yields a well-formed tree *)
@@ -63,3 +63,55 @@ Lemma frozen_rejects_proof b e io k exact :
   b_immut b = true ->
   insert_element b e io = Lib eImmutable /\ delete_btree b k exact = Lib eImmutable.
 Proof. intros H. unfold insert_element, delete_btree. now rewrite H. Qed.
+
+(* deletion (BTree._delete at tree level: _Node.delete with balance / steal / merge / successor
+   replacement, then the root collapse) never fails on a well-formed tree - no IndexError, no
+   failed assert - keeps the invariant, reports what the reference dictionary reports, and
+   removes exactly the key from the in-order traversal (nothing when ValueError is raised) *)
+Lemma delete_wf_proof t root key exact :
+  wf t root -> exists root' o, delete_tree t root key exact = Ok (root', o) /\ wf t root'.
+Proof.
+  intros (Ht & (h & Hw) & Hs).
+  destruct (delete_tree_spec t Ht h root key exact Hw Hs) as (h' & root' & Hr & Hw' & Hs' & He).
+  exists root'. eexists. split; [exact Hr|]. repeat split; eauto.
+Qed.
+
+Lemma delete_elements_proof t root key exact :
+  wf t root ->
+  let o := dspec exact (find_sorted key (elements root)) in
+  exists root', delete_tree t root key exact = Ok (root', o) /\
+                elements root' = after_del key o (elements root).
+Proof.
+  intros (Ht & (h & Hw) & Hs) o.
+  destruct (delete_tree_spec t Ht h root key exact Hw Hs) as (h' & root' & Hr & Hw' & Hs' & He).
+  exists root'. auto.
+Qed.
+
+Lemma del_sorted_length k l :
+  match find_sorted k l with
+  | Some _ => S (length (del_sorted k l)) = length l
+  | None => length (del_sorted k l) = length l
+  end.
+Proof.
+  induction l as [|[k' v] r IH]; cbn [find_sorted del_sorted]; [reflexivity|].
+  destruct (Z.eqb_spec k k'); [reflexivity|]. cbn [length].
+  destruct (find_sorted k r); lia.
+Qed.
+
+Lemma delete_btree_spec_proof b key exact :
+  bwf b -> b_immut b = false ->
+  let o := dspec exact (find_sorted key (elements (b_root b))) in
+  exists b', delete_btree b key exact = Ok (b', o) /\ bwf b' /\
+             elements (b_root b') = after_del key o (elements (b_root b)) /\ b_immut b' = false /\ b_t b' = b_t b.
+Proof.
+  intros (Hw & Hsz) Him o. unfold delete_btree. rewrite Him.
+  pose proof Hw as (Ht & (h & Hwr) & Hs).
+  destruct (delete_tree_spec (b_t b) Ht h (b_root b) key exact Hwr Hs) as (h' & root' & -> & Hw' & Hs' & He).
+  cbn [bind]. fold o in He |- *. eexists. split; [reflexivity|]. unfold bwf. cbn [b_root b_t b_size b_immut].
+  split; [split|auto].
+  - repeat split; eauto.
+  - unfold zlen in *. rewrite He. unfold o in *.
+    destruct (find_sorted key (elements (b_root b))) as [x|] eqn:Ef; destruct exact as [vx|]; cbn [dspec after_del];
+      try (destruct (snd x =? vx); cbn [after_del]); try lia;
+      pose proof (del_sorted_length key (elements (b_root b))) as Hdl; rewrite Ef in Hdl; lia.
+Qed.
